@@ -224,7 +224,9 @@ def run_in(ctx, tmpdir):
             typed = cfg.startswith("typed")
         else:
             spec = S.random_label_spec(rng, rng.randrange(3, 14), labels, typed)
-        tree = adapter.build(spec, pool, typed=typed)
+        # every fifth tree of strings has a calc_data_id hook that re-keys plain strings ("H:" + data): such an id is a custom id
+        hooked = cfg.endswith("str") and k % 5 == 4
+        tree = build_write_tree(pool, spec, typed, hooked)
         for km_name, vm_name in (combos if ctx.thorough else [combos[(k + j * 4) % 9] for j in range(3)]):
             key_map, value_map = S.KEY_MAPS[km_name], S.VALUE_MAPS[vm_name]
             maps_before = (json.dumps(S.KEY_MAPS["custom"], sort_keys=True), json.dumps(S.VALUE_MAPS["custom"], sort_keys=True))
@@ -239,7 +241,7 @@ def run_in(ctx, tmpdir):
             if not cfg.endswith("str"):
                 # every other serialisation mapper returns a NEW dict (what the mapper returns is what gets written)
                 kw["mapper"] = m.ser if next(tgt_rot) % 2 else (lambda n, d: dict(m.ser(n, dict(d)) or d))
-            case = dict(side="write", cfg=cfg, spec=spec, key_map=km_name, value_map=vm_name)
+            case = dict(side="write", cfg=cfg, spec=spec, key_map=km_name, value_map=vm_name, hook=hooked, fresh_dict_mapper=bool(kw) and kw["mapper"] is not m.ser)
             doc = None
             # target kind rotates: open stream, str path, pathlib.Path, compressed path (the layout is the same for all)
             target = ["stream", "path", "zip", "pathlib", "path"][next(tgt_rot) % 5]    # 5 targets against 3 / 9 option combinations: all pairs occur
@@ -274,7 +276,7 @@ def run_in(ctx, tmpdir):
                     mf[id(n)] = {"o": pool.attrs[i]["obj"], "type": S.flavour(n.data), "name": str(n.data)}
             bad = check_layout(doc, tree, pool, ekm, evm, meta, mf)
             out.count((repr(spec), cfg, km_name, vm_name), tree.count >= 3 and any(isinstance(r[1], int) for r in doc["nodes"]))
-            out.dist["write:" + cfg] += 1
+            out.dist["write:" + cfg + ("-hook" if hooked else "")] += 1
             if bad:
                 out.fail(case, f"saved document violates the layout: {bad[0]} (doc {json.dumps(doc)[:300]})", doc=doc)
                 continue
@@ -306,7 +308,7 @@ def run_in(ctx, tmpdir):
                 if isinstance(row[1], dict) and "o" in row[1]:
                     row[1].update({"i": 7000 + j_, "s": "app-field", "k": j_})
         cls = TypedTree if typed else Tree
-        case = dict(side="read", typed=typed, doc=doc)
+        case = dict(side="read", typed=typed, doc=doc, want=json.loads(json.dumps(desc_shape(desc, pool, typed))))
         from props.c05 import SHARED_FILE_META
 
         # every other load hands over ONE caller-owned `file_meta` dict that still holds the header of the previous document
@@ -333,6 +335,7 @@ def run_in(ctx, tmpdir):
             out.disagree(case, f"model loads {mres}, implementation {res}")
         if k < 2:
             out.sample(dict(side="read", doc=doc))
+    empty_documents(out)
     # user guide literal
     try:
         t = Tree.load(io.StringIO(json.dumps(GUIDE_1)))
@@ -376,6 +379,98 @@ def run_in(ctx, tmpdir):
     return out
 
 
+def build_write_tree(pool, spec, typed, hooked):
+    t0 = None
+    if hooked:
+        from props.c05 import new_tree
+
+        t0, _ = new_tree("typed-hook-str" if typed else "plain-hook-str", pool)
+    return adapter.build(spec, pool, typed=typed, tree=t0)
+
+
+def empty_documents(out):
+    """a document with an empty node list is a document of the layout: it describes the empty tree (also the file of a new tree)"""
+    for typed, cls in ((False, Tree), (True, TypedTree)):
+        for how in ("independent", "saved"):
+            if how == "independent":
+                doc = encode([], typed, None, None, {"who": "independent"})
+            else:
+                fp = io.StringIO()
+                cls("empty").save(fp)
+                doc = json.loads(fp.getvalue())
+            case = dict(side="empty", typed=typed, doc=doc, how=how)
+            out.evaluations += 1
+            out.dist["empty_document"] += 1
+            fm = {}
+            try:
+                t2 = cls.load(io.StringIO(json.dumps(doc)), file_meta=fm)
+                res = [t2.count, type(t2).__name__]
+            except Exception as e:  # noqa
+                res = "err:" + adapter.err_class(e) + ":" + type(e).__name__
+            if res != [0, cls.__name__]:
+                out.fail(case, f"a document with an empty node list ({how}) loads as {res}, it describes the empty {cls.__name__}; doc {json.dumps(doc)[:200]}")
+            elif fm != doc["meta"]:
+                out.fail(case, f"file_meta {fm} != header {doc['meta']}")
+
+
 def replay(ctx, rp):
     case = rp["case"]
-    return dict(note="re-run ./check C12 with the same VERIF_SEED; the case is self-contained in the replay file", case=case, property_holds=False)
+    pool = ctx.pool
+    m = S.Mappers(pool)
+    out = core.Outcome()
+    side = case.get("side")
+    if side == "empty":
+        empty_documents(out)
+    elif side == "read":
+        doc, typed = case["doc"], case["typed"]
+        objs = any(isinstance(r[1], dict) and ("o" in r[1] or "x" in r[1]) for r in doc["nodes"])
+        try:
+            t2 = (TypedTree if typed else Tree).load(io.StringIO(json.dumps(doc)), mapper=m.deser if objs else None)
+            res = S.tree_shape(t2, pool)
+        except Exception as e:  # noqa
+            res = "err:" + adapter.err_class(e)
+        if "want" in case and json.loads(json.dumps(res)) != case["want"]:
+            out.fail(case, f"document loads as {res}, it describes {case['want']}")
+    elif side == "write":
+        from props.c10 import tuplify_d
+
+        typed = case["cfg"].startswith("typed")
+        tree = build_write_tree(pool, tuplify_d(case["spec"]), typed, bool(case.get("hook")))
+        key_map, value_map = S.KEY_MAPS[case["key_map"]], S.VALUE_MAPS[case["value_map"]]
+        ekm, evm = S.effective_maps(tree, key_map, value_map if not isinstance(value_map, dict) else dict(value_map))
+        kw = {}
+        if not case["cfg"].endswith("str"):
+            kw["mapper"] = (lambda n, d: dict(m.ser(n, dict(d)) or d)) if case.get("fresh_dict_mapper") else m.ser
+        meta = {"foo": "bar"}
+        fp = io.StringIO()
+        try:
+            tree.save(fp, meta=dict(meta), key_map=key_map, value_map=value_map, **kw)
+            doc = json.loads(fp.getvalue())
+            mf = {}
+            for n in tree:
+                if not isinstance(n.data, str) and kw:
+                    i = pool.index_of(n.data)
+                    mf[id(n)] = {"o": pool.attrs[i]["obj"], "type": S.flavour(n.data), "name": str(n.data)}
+            bad = check_layout(doc, tree, pool, ekm, evm, meta, mf)
+            if bad:
+                out.fail(case, f"saved document violates the layout: {bad[0]}")
+        except Exception as e:  # noqa
+            out.fail(case, f"save raised {e!r}")
+        S.reset_custom_maps()
+    elif side == "bad":
+        for cls in (Tree, TypedTree):
+            try:
+                cls.load(io.StringIO(json.dumps(case["doc"])))
+                out.fail(case, f"{cls.__name__}.load of a document without nutree header was accepted")
+            except Exception:  # noqa
+                pass
+    elif side == "guide":
+        try:
+            got = names(Tree.load(io.StringIO(json.dumps(GUIDE_1))))
+        except Exception as e:  # noqa
+            got = "err:" + adapter.err_class(e) + ":" + type(e).__name__
+        if got != GUIDE_1_SHAPE:
+            out.fail(case, f"the user guide's example document loads as {got}")
+    else:
+        return dict(note="a disagreement between model and implementation (no oracle failure): re-run ./check C12", case=case, property_holds=True)
+    return dict(failures=[f["what"] for f in out.oracle_failures[:5]], property_holds=not out.oracle_failures)
